@@ -976,7 +976,7 @@ func (obj *Package) DefLambda(name string, lam *Lambda, fc func(args List) Objec
 			Kind:   kind,
 		}
 		obj.funcs[name] = &fi
-		if vv := obj.vars[name]; vv != nil && Unbound == vv.Val && vv.Export {
+		if vv := obj.vars[name]; vv != nil && Unbound == vv.Val && vv.Export && vv.Pkg == obj {
 			fi.Export = true
 			delete(obj.vars, name)
 			for _, u := range obj.Users {
